@@ -23,6 +23,7 @@ CONSTANTS
   GENBAL = 9
   FAILBUDGET = 4
   FRESH = TRUE
+  WANTED = {}
   PREFUND = 9
   PREDEL = 3
   EVENTS = {"Undelegate","Slash","EndBlock","ReleaseHold"}
